@@ -26,11 +26,14 @@ GROUPS = [
 
 
 ALL = []
+OWN = []  # --own: only the check(s) of the seed's own property, merged into the existing matrix entry
 
 
 def checks_for(meta, patch):
     if ALL:
         return [f"C{i:02d}" for i in range(1, 21)]
+    if OWN:
+        return sorted(set(re.findall(r"C\d\d", " ".join([meta.get("property") or ""] + meta.get("properties", [])))))
     ids = set(re.findall(r"C\d\d", " ".join([meta.get("property") or ""] + meta.get("properties", []))))
     for pat, lst in GROUPS:
         if re.search(pat, patch):
@@ -85,6 +88,8 @@ def main():
             tier = args.pop(0)
         elif k == "--all":
             ALL.append(True)
+        elif k == "--own":
+            OWN.append(True)
         elif k == "--only":
             ONLY.extend(args.pop(0).split(","))
     names = args or sorted(n for n in os.listdir(SEEDED) if os.path.isfile(os.path.join(SEEDED, n, "patch.diff")))
@@ -94,7 +99,7 @@ def main():
         for name, r in ex.map(lambda n: run_seed_safe(n, tier), names):
             if r is None:
                 continue
-            if ONLY and name in matrix:
+            if (ONLY or OWN) and name in matrix:
                 matrix[name]["results"].update(r["results"])
                 matrix[name]["caught_by"] = sorted(c for c, x in matrix[name]["results"].items() if x["rc"] == 1)
             else:
